@@ -1,12 +1,12 @@
 // C13 — all HMM likelihood algorithms compute the same, correct probability of the data
 // VF-VARIANT: san
 // VF-RULE: E2: every (transition matrix with rows from a finite row set incl. zero entries) x (emission sequence over a finite set of per-site emission vectors with values in {0,1e-200,1e-3,0.5,1}, one positive entry per site) x (every subset of break points) x (emission parameter theta) for each (state count, length); inside a case every low-memory chunk size 2..L+1 (chunk size 1 in its own spaces), the rescaled and log-sum algorithms, posteriors, per-site likelihoods, first and second derivatives and a re-query pass are compared with long-double enumeration of all hidden paths (second-order jets in theta). Periodic emission blocks give lengths up to 12 (enumeration) and up to 5000 (long-double forward/backward reference, structured break-point families). Built-in transition models: every parameter vector over a finite value set. E1: breadth-first search over histories of parameter updates, setBreakPoints and queries on one likelihood object per (algorithm x transition model), each answer compared bit-for-bit with a fresh object at the same parameter values; same for the two built-in transition models alone. A case is non-trivial when it has >= 2 states and >= 2 sites (E2) or changed the canonical state (E1).
-// VF-BOUND: states 1..3 | 1..4; free emission sequences (every site chosen independently) up to length 5 | 7, periodic emission blocks up to length 7 | 12 with path enumeration (all break-point subsets throughout) and lengths 64, 1000 | 64, 200, 1000, 5000 with the forward reference (6 break-point families, chunk sizes {2,3,7,L-1,L,L+1,1000}); transition rows from a set of 4/6/7 rows per state count (all matrices over it); emission vectors: all 24 for 2 states at lengths 1-2, otherwise 2..6 representative vectors over {0,1e-200,1e-3,0.5,1}; theta in {1, 1.5}; built-in models: every parameter vector over 2..5 values per parameter; histories up to depth 3 | 4 over 18 operations on a 2-state 3-site model (closure for the transition models alone). State count 5, non-periodic sequences longer than 7 and break points outside 1..L-1 are not explored.
+// VF-BOUND: states 1..3 | 1..4; free emission sequences (every site chosen independently) up to length 5 | 6, periodic emission blocks up to length 7 | 12 with path enumeration (all break-point subsets throughout) and lengths 64, 1000 | 64, 200, 1000, 5000 with the forward reference (6 break-point families, chunk sizes {2,3,7,L-1,L,L+1,1000}); transition rows from a set of 4/6/7 rows per state count (all matrices over it); emission vectors: all 24 for 2 states at lengths 1-2, otherwise 2..6 representative vectors over {0,1e-200,1e-3,0.5,1}; theta in {1, 1.5}; built-in models: every parameter vector over 2..5 values per parameter; histories up to depth 3 | 4 over 18 operations on a 2-state 3-site model (closure for the transition models alone). State count 5, non-periodic sequences longer than 6 and break points outside 1..L-1 are not explored.
 // VF-LEVEL: bounded-exhaustive differential check of the real classes against path enumeration; no sampling. Tolerances are rounding bounds (64*L*n*eps relative to max(1,|logL|) for values, 1024*L^2*n^2*eps and 1024*L^3*n^2*eps for first and second derivatives); history answers are compared exactly.
 // VF-ASSUME: the harness-side HmmStateAlphabet/HmmTransitionMatrix/HmmEmissionProbabilities implementations (C13_hmm.hpp) follow the interfaces' contracts;; long double path enumeration is the definition of the likelihood (start vector pi.P as coded, equal to pi for a stationary pi);; g++/libstdc++ long double (x87 extended) arithmetic
 // VF-TECHNIQUE: exhaustive enumeration of finite model families and operation histories on the real code against a long-double path-enumeration reference and fresh-object differential oracle
 // VF-BUDGET_QUICK: 900
-// VF-BUDGET_THOROUGH: 3000
+// VF-BUDGET_THOROUGH: 3600
 #include "vf.hpp"
 #include "common.hpp"
 #include "C13_hmm.hpp"
@@ -609,13 +609,13 @@ int main(int argc, char** argv) {
   add("paths", 2, 3, 6, 0, 1, true); add("paths", 2, 4, 4, 0, 1, true); add("paths", 2, 5, 3, 0, 1, true);
   add("paths", 3, 1, 5, 0, 2, true); add("paths", 3, 2, 5, 0, 1, true); add("paths", 3, 3, 3, 0, 1, true);
   if (th) {
-    add("paths", 2, 4, 6, 0, 1, true); add("paths", 2, 5, 4, 0, 1, true); add("paths", 2, 6, 2, 0, 1, true); add("paths", 2, 7, 2, 0, 1, true);
-    add("paths", 3, 3, 5, 0, 1, true); add("paths", 3, 4, 3, 0, 1, true); add("paths", 3, 5, 2, 0, 1, true);
-    add("paths", 4, 1, 4, 0, 2, true); add("paths", 4, 2, 4, 0, 1, true); add("paths", 4, 3, 2, 0, 1, true);
+    add("paths", 2, 4, 6, 0, 1, true); add("paths", 2, 6, 2, 0, 1, true);
+    add("paths", 3, 3, 4, 0, 1, true); add("paths", 3, 4, 2, 0, 1, true);
+    add("paths", 4, 1, 4, 0, 2, true); add("paths", 4, 2, 3, 0, 1, true); add("paths", 4, 3, 2, 0, 1, true);
   }
   // periodic emission blocks, every break-point subset, still path enumeration
-  add("periodic", 2, th ? 10 : 7, th ? 4 : 6, 2, 1, true);
-  if (th) { add("periodic", 2, 8, 2, 3, 1, true); add("periodic", 2, 12, 2, 1, 1, true); add("periodic", 3, 7, 2, 2, 1, true); }
+  add("periodic", 2, th ? 10 : 7, th ? 3 : 6, 2, 1, true);
+  if (th) { add("periodic", 2, 8, 2, 3, 1, true); add("periodic", 2, 12, 2, 1, 1, true); add("periodic", 3, 6, 2, 2, 1, true); }
   // long sequences: long-double forward reference, structured break points, 7 chunk sizes
   add("long", 2, 64, 6, th ? 3 : 2, 1, false); add("long", 2, 1000, th ? 6 : 3, 2, 1, false);
   if (th) { add("long", 2, 5000, 2, 2, 1, false); add("long", 3, 200, 2, 2, 1, false); add("long", 4, 64, 2, 1, 1, false); }
